@@ -244,19 +244,24 @@ def ndl(events, alpha, betas, lambda_=1.0, *,
             threads = []
             queue_lock = threading.Lock()
 
+            worker_errors = []
+
             def worker():
-                while True:
-                    with queue_lock:
-                        if working_queue.empty():
-                            break
-                        data = working_queue.get()
-                    ndl_parallel.learn_inplace_binary_to_binary(binary_files,
-                                                                alpha,
-                                                                beta1,
-                                                                beta2,
-                                                                lambda_,
-                                                                weights,
-                                                                data)
+                try:
+                    while True:
+                        with queue_lock:
+                            if working_queue.empty():
+                                break
+                            data = working_queue.get()
+                        ndl_parallel.learn_inplace_binary_to_binary(binary_files,
+                                                                    alpha,
+                                                                    beta1,
+                                                                    beta2,
+                                                                    lambda_,
+                                                                    weights,
+                                                                    data)
+                except Exception as error:  # pylint: disable=broad-except
+                    worker_errors.append(error)
 
             with queue_lock:
                 for partlist in part_lists:
@@ -269,6 +274,9 @@ def ndl(events, alpha, betas, lambda_=1.0, *,
 
             for thread in threads:
                 thread.join()
+
+            if worker_errors:
+                raise worker_errors[0]
         else:
             raise ValueError('method needs to be either "threading" or "openmp"')
 
